@@ -42,6 +42,12 @@ func DefaultGenCfg() GenCfg {
 		Numbers: []string{"0", "1", "2", "3", "1.5", "10", "0.5", "2.25", "100", ".5", "7", "4"}}
 }
 
+// BigLiterals are number literals outside the range of the machine integers and of exactly
+// representable integers: a literal is a double, whatever its length.
+var BigLiterals = []string{"9223372036854775807", "9223372036854775808", "18446744073709551616", "100000000000000000000", "9007199254740993",
+	"0.000000000000000000001", "123456789012345678901234567890.5", "1" + strings.Repeat("0", 400), "0." + strings.Repeat("0", 400) + "1", "00000000000000000000001"}
+
+
 type ExprGen struct {
 	R   *Rng
 	Cfg GenCfg
@@ -453,6 +459,9 @@ func (g *ExprGen) Num(d int) Expr {
 		}
 		if g.inPred > 0 && r.Chance(1, 4) {
 			return Call{Base: Ctx{}, Name: Pick(r, []string{"position", "last"})}
+		}
+		if r.Chance(1, 12) {
+			return NumLit{Text: Pick(r, BigLiterals)}
 		}
 		return NumLit{Text: Pick(r, g.Cfg.Numbers)}
 	}
